@@ -27,7 +27,7 @@ Section EqDDM.
   Proof.
     intros c [n er m d w] v Hn Hm [H1 H2]. cbn in Hn, Hm.
     unfold nonneg_step, eps_std, mean_update, incr_op, one in H1, H2. cbn in H1, H2.
-    unfold DDM__update, DDM__calculate_error_rate_plus_std, DDM__update_min_values, Mean_update,
+    autounfold with gensrc. unfold
       ddm_t, ddm_cfg_t, ddm_step, eps_std, update_mins, check_thr, mean_update, incr_op, mean_t, mins_er, mins_sd, one, zero.
     cbn. repeat zstep. cbn.
     destruct (Z.leb_spec (dd_min c) (n + 1)); cbn; [|reflexivity].
@@ -115,7 +115,7 @@ Section EqECDD.
     ECDDWT__update (ecdd_t c s) v = Ok (ecdd_t c (ecdd_step c s v), tt).
   Proof.
     intros c [n p z d w] v Hn Hm. cbn in Hn, Hm.
-    unfold ECDDWT__update, Mean_update, EWMA_update, ecdd_t, ecdd_cfg_t, ecdd_step, ecdd_zvar, ecdd_check, control_limit, lit,
+    autounfold with gensrc. unfold ecdd_t, ecdd_cfg_t, ecdd_step, ecdd_zvar, ecdd_check, control_limit, lit,
       mean_update, ewma_update, incr_op, mean_t, ewma_t, one, two, zero.
     cbn -[powN Z.mul Z.to_nat].
     destruct (Z.ltb_spec (n + 1) 0); [lia|]. cbn -[powN Z.mul Z.to_nat].
@@ -128,7 +128,7 @@ Section EqECDD.
   Lemma ECDD_reset_eq : forall c s, leb (ofZ 0) (ec_lambda c) && leb (ec_lambda c) (ofZ 1) = true ->
     ECDDWT_reset (ecdd_t c s) = Ok (ecdd_t c (ecdd_init c), tt).
   Proof.
-    intros c s H. unfold ECDDWT_reset, ECDDWT_super_BaseSPC_reset, ECDDWT_super_BaseConceptDrift_reset, Mean_init, EWMA_init, ecdd_t, ecdd_cfg_t.
+    intros c s H. autounfold with gensrc. unfold ecdd_t, ecdd_cfg_t.
     cbn. rewrite H. reflexivity.
   Qed.
 End EqECDD.
